@@ -53,6 +53,7 @@ var verifDir = func() string {
 
 type propCfg struct {
 	World       string
+	RaceWorld   string // world run in a -race build next to the functional batch ("" = none)
 	Tags        string
 	Level       string
 	QuickWall   float64
@@ -81,7 +82,7 @@ var props = map[string]propCfg{
 	"C15": {World: "c15", Level: "exploration", QuickWall: 20, ThoroughSec: 600, Rule: ruleCommon},
 	"C17": {World: "c17", Tags: "binary_log", Level: "fault_enumeration", QuickWall: 25, ThoroughSec: 600, Rule: ruleCommon + " Per run: a binary log stream written by 1-3 logging tasks; every byte offset of the stream (all offsets up to 1200 bytes, else a drawn stride plus +-12 around every event boundary) is taken as crash point, then 10-40 stored-byte/reader fault combinations are applied."},
 	"C18": {World: "c18", Level: "exploration", QuickWall: 20, ThoroughSec: 600, Rule: ruleCommon},
-	"C06": {World: "c06", Level: "exploration", QuickWall: 25, ThoroughSec: 600, Rule: ruleCommon},
+	"C06": {World: "c06", RaceWorld: "c06race", Level: "exploration", QuickWall: 25, ThoroughSec: 600, Rule: ruleCommon},
 }
 
 func env() []string {
@@ -197,24 +198,81 @@ func prepare(id string, tags string, race bool) (scratch, worker string) {
 	gms := re.ReplaceAllString(string(gm), "go 1.21")
 	gms += "\nrequire github.com/anishathalye/porcupine v1.3.0\n"
 	os.WriteFile(filepath.Join(scratch, "go.mod"), []byte(gms), 0o644)
-	worker = filepath.Join(scratch, "simworker")
-	args := []string{"build", "-o", worker}
-	if tags != "" {
-		args = append(args, "-tags", tags)
-	}
-	if race {
-		args = append(args, "-race")
-	}
-	args = append(args, "./zsim/cmd/simworker")
-	cmd := exec.Command("go", args...)
-	cmd.Dir = scratch
-	cmd.Env = env()
-	out, err := cmd.CombinedOutput()
+	worker, out, err := buildWorker(scratch, tags, race)
 	if err != nil {
 		fmt.Fprintf(os.Stderr, "%s\n", out)
 		fatal2("the instrumented copy of %s does not build (this is a build problem, not a property violation)", repoDir)
 	}
 	return scratch, worker
+}
+
+// buildWorker compiles the simulator worker in the scratch module; with race it
+// is built with -race (spin baton, see zsim/baton_race.go).
+func buildWorker(scratch, tags string, race bool) (worker string, out []byte, err error) {
+	worker = filepath.Join(scratch, "simworker")
+	args := []string{"build"}
+	if tags != "" {
+		args = append(args, "-tags", tags)
+	}
+	if race {
+		worker += ".race"
+		args = append(args, "-race")
+	}
+	args = append(args, "-o", worker, "./zsim/cmd/simworker")
+	cmd := exec.Command("go", args...)
+	cmd.Dir = scratch
+	cmd.Env = env()
+	out, err = cmd.CombinedOutput()
+	return worker, out, err
+}
+
+var lineRe = regexp.MustCompile(`(/[^\s:()]+\.go):(\d+)`)
+
+// originalLines rewrites file:line references into the instrumented scratch
+// copy (race reports, crash dumps) to lines of the original sources: zinstr puts
+// zsim.Y(id) before every statement and records the original line of each id.
+func originalLines(scratch, text string) string {
+	cache := map[string][]int{}
+	siteLines := []int(nil)
+	if b, err := os.ReadFile(filepath.Join(scratch, "zsim", "sites_gen.go")); err == nil {
+		if i := bytes.Index(b, []byte("SiteLines = []int32{")); i >= 0 {
+			for _, f := range strings.FieldsFunc(string(b[i+20:]), func(r rune) bool { return r < '0' || r > '9' }) {
+				n, _ := strconv.Atoi(f)
+				siteLines = append(siteLines, n)
+			}
+		}
+	}
+	yRe := regexp.MustCompile(`zsim\.Y\((\d+)\)`)
+	return lineRe.ReplaceAllStringFunc(text, func(m string) string {
+		sm := lineRe.FindStringSubmatch(m)
+		file, ln := sm[1], sm[2]
+		if !strings.HasPrefix(file, scratch+"/") || strings.Contains(file, "/zsim/") {
+			return m
+		}
+		mp, ok := cache[file]
+		if !ok {
+			b, err := os.ReadFile(file)
+			if err == nil {
+				cur := 0
+				for _, l := range strings.Split(string(b), "\n") {
+					if y := yRe.FindStringSubmatch(l); y != nil {
+						id, _ := strconv.Atoi(y[1])
+						if id < len(siteLines) {
+							cur = siteLines[id]
+						}
+					}
+					mp = append(mp, cur)
+				}
+			}
+			cache[file] = mp
+		}
+		n, _ := strconv.Atoi(ln)
+		rel := strings.TrimPrefix(file, scratch+"/")
+		if n-1 < len(mp) && n >= 1 && mp[n-1] > 0 {
+			return fmt.Sprintf("%s:%d", rel, mp[n-1])
+		}
+		return rel + ":?"
+	})
 }
 
 // ---- worker output (mirrors simworker) ----
@@ -292,6 +350,7 @@ type ReplayFile struct {
 	// Rerun: the run killed the worker process (Go fatal error such as out of
 	// memory); it is replayed by running (seed, run) again instead of a choice list.
 	Rerun bool   `json:"rerun,omitempty"`
+	Race  bool   `json:"race_build,omitempty"`
 	Crash string `json:"crash_output,omitempty"`
 }
 
@@ -349,6 +408,7 @@ func repoRev() string {
 type crashInfo struct {
 	run    int
 	stderr string
+	race   bool
 }
 
 // crashedRun recognises a worker that was killed by the code under test (not
@@ -374,6 +434,7 @@ func crashedRun(r workerResult) (int, bool) {
 }
 
 type workerResult struct {
+	race   bool
 	out    *Output
 	err    error
 	stderr string
@@ -381,9 +442,11 @@ type workerResult struct {
 	from   int
 }
 
-func runWorker(worker string, args []string, timeout time.Duration) (stdout []byte, stderrTail string, code int, err error) {
+var raceEnv = []string{"GOMAXPROCS=3", "GORACE=halt_on_error=1 exitcode=66"}
+
+func runWorker(worker string, args []string, timeout time.Duration, extraEnv ...string) (stdout []byte, stderrTail string, code int, err error) {
 	cmd := exec.Command(worker, args...)
-	cmd.Env = env()
+	cmd.Env = append(env(), extraEnv...)
 	var so bytes.Buffer
 	se := &tailBuf{max: 1 << 16}
 	cmd.Stdout = &so
@@ -542,8 +605,21 @@ func check(id, tier string, workers int, wallOverride float64) int {
 	}
 	fmt.Printf("vcheck: built instrumented simulator in %.1fs; %d workers x %.0fs\n", buildS, workers, wall)
 
-	results := make([]workerResult, workers)
+	raceWorkers := 0
+	if cfg.RaceWorld != "" {
+		// race-mode batch: a -race build of the same instrumented copy, spin baton,
+		// oracle = the Go race detector; each worker spins on up to 3 Ps
+		raceWorkers = 3
+		if tier == "thorough" {
+			raceWorkers = 4
+		}
+		if workers > 6 {
+			workers -= raceWorkers
+		}
+	}
+	results := make([]workerResult, workers+raceWorkers)
 	var wg sync.WaitGroup
+	searchStart := time.Now()
 	for i := 0; i < workers; i++ {
 		wg.Add(1)
 		go func(i int) {
@@ -565,19 +641,60 @@ func check(id, tier string, workers int, wallOverride float64) int {
 			results[i] = r
 		}(i)
 	}
+	var raceWorker string
+	var raceBuildErr error
+	var raceBuildOut []byte
+	raceReady := make(chan struct{})
+	if raceWorkers > 0 {
+		go func() {
+			raceWorker, raceBuildOut, raceBuildErr = buildWorker(scratch, cfg.Tags, true)
+			close(raceReady)
+		}()
+	}
+	for j := 0; j < raceWorkers; j++ {
+		wg.Add(1)
+		go func(j int) {
+			defer wg.Done()
+			i := workers + j
+			<-raceReady
+			if raceBuildErr != nil {
+				results[i] = workerResult{race: true, err: fmt.Errorf("race build failed: %v\n%s", raceBuildErr, raceBuildOut), code: 2}
+				return
+			}
+			left := wall - time.Since(searchStart).Seconds()
+			if left < 10 {
+				left = 10
+			}
+			from := i * 100_000_000
+			args := []string{"-world", cfg.RaceWorld, "-prop", id, "-seed", strconv.FormatUint(seed, 10),
+				"-from", strconv.Itoa(from), "-to", strconv.Itoa(from + 99_000_000), "-wall", fmt.Sprintf("%.1f", left)}
+			so, se, code, err := runWorker(raceWorker, args, time.Duration(left*float64(time.Second))+150*time.Second, raceEnv...)
+			r := workerResult{race: true, stderr: se, code: code, err: err, from: from}
+			if err == nil && (code == 0 || code == 3) {
+				var o Output
+				if e := json.Unmarshal(so, &o); e != nil {
+					r.err = fmt.Errorf("unreadable worker output: %v", e)
+				} else {
+					r.out = &o
+				}
+			}
+			results[i] = r
+		}(j)
+	}
 	wg.Wait()
 
 	// aggregate
 	agg := Stats{Strategies: map[string]int{}, Faults: map[string]int{}, Probes: map[string]int{}, SitesHit: map[string]int{}, SitesTotal: map[string]int{}}
 	var viols []ViolationRec
 	var crashes []crashInfo
+	raceRuns, raceSteps := 0, int64(0)
 	findingClause := map[string]bool{}
 	var realC, stubC []string
 	infra := false
 	for i, r := range results {
 		if r.err != nil || r.out == nil || (r.code != 0 && r.code != 3) {
 			if run, ok := crashedRun(r); ok {
-				crashes = append(crashes, crashInfo{run, r.stderr})
+				crashes = append(crashes, crashInfo{run, r.stderr, r.race})
 				fmt.Fprintf(os.Stderr, "vcheck: worker %d died during run %d; will try to reproduce\n", i, run)
 				continue
 			}
@@ -590,6 +707,12 @@ func check(id, tier string, workers int, wallOverride float64) int {
 			fmt.Fprintf(os.Stderr, "vcheck: worker %d saw a violation that did not replay deterministically in-process; this is a defect of the machinery, nothing is reported as a violation\n", i)
 		}
 		o := r.out
+		if r.race {
+			raceRuns += o.Stats.Runs
+			raceSteps += o.Stats.Steps
+			viols = append(viols, o.Violations...)
+			continue
+		}
 		realC, stubC = o.Real, o.Stub
 		agg.Runs += o.Stats.Runs
 		agg.Nontrivial += o.Stats.Nontrivial
@@ -694,8 +817,12 @@ func check(id, tier string, workers int, wallOverride float64) int {
 		// reproduced twice in fresh processes before it is reported
 		died := 0
 		var tailOut string
+		w, wname, xenv := worker, cfg.World, []string(nil)
+		if c.race {
+			w, wname, xenv = raceWorker, cfg.RaceWorld, raceEnv
+		}
 		for k := 0; k < 2; k++ {
-			_, se, code, err := runWorker(worker, []string{"-world", cfg.World, "-prop", id, "-seed", strconv.FormatUint(seed, 10), "-from", strconv.Itoa(c.run), "-to", strconv.Itoa(c.run + 1), "-wall", "600"}, 400*time.Second)
+			_, se, code, err := runWorker(w, []string{"-world", wname, "-prop", id, "-seed", strconv.FormatUint(seed, 10), "-from", strconv.Itoa(c.run), "-to", strconv.Itoa(c.run + 1), "-wall", "600"}, 400*time.Second, xenv...)
 			if err == nil && code != 0 && code != 3 && !strings.Contains(se, "watchdog") {
 				died++
 				tailOut = se
@@ -706,11 +833,15 @@ func check(id, tier string, workers int, wallOverride float64) int {
 			infra = true
 			continue
 		}
-		lines := strings.Split(tailOut, "\n")
-		if len(lines) > 40 {
-			lines = lines[:40]
+		lines := strings.Split(originalLines(scratch, tailOut), "\n")
+		if len(lines) > 60 {
+			lines = lines[:60]
 		}
-		rf := ReplayFile{Property: id, World: cfg.World, Seed: seed, Run: c.run, Clause: "process_crash", Msg: "the run kills the process (unrecoverable Go runtime error)", Rerun: true, Crash: strings.Join(lines, "\n"), RepoRev: repoRev(),
+		clause, msg := "process_crash", "the run kills the process (unrecoverable Go runtime error)"
+		if strings.Contains(tailOut, "DATA RACE") {
+			clause, msg = "data_race", "the Go race detector reports a data race on this simulated schedule (race-mode build: only the happens-before edges created by the code under test are visible to it)"
+		}
+		rf := ReplayFile{Property: id, World: wname, Seed: seed, Run: c.run, Clause: clause, Msg: msg, Rerun: true, Race: c.race, Crash: strings.Join(lines, "\n"), RepoRev: repoRev(),
 			How: "cd /verif && bin/vcheck replay <this file>   (rebuilds from /repo's working tree and runs (seed, run) again; exit 1 = the process dies again)"}
 		os.MkdirAll(filepath.Join(verifDir, "replays"), 0o755)
 		path := filepath.Join(verifDir, "replays", fmt.Sprintf("%s-%d-%d.json", id, seed, c.run))
@@ -718,7 +849,7 @@ func check(id, tier string, workers int, wallOverride float64) int {
 		os.WriteFile(path, b, 0o644)
 		nviol++
 		exit = 1
-		fmt.Printf("violation: clause=process_crash run=%d: the code under test killed the process:\n  %s\n", c.run, strings.Join(lines[:min(len(lines), 6)], "\n  "))
+		fmt.Printf("violation: clause=%s run=%d: %s:\n  %s\n", clause, c.run, msg, strings.Join(lines[:min(len(lines), 30)], "\n  "))
 		fmt.Printf("VIOLATION property=%s replay=%s\n", id, path)
 	}
 	sort.Strings(knownLines)
@@ -738,10 +869,13 @@ func check(id, tier string, workers int, wallOverride float64) int {
 		}
 	}
 	if agg.Runs > 0 {
-		writeEvidence(id, tier, seed, cfg, agg, len(distinct), nviol, wallS, buildS, workers, realC, stubC, unreached, len(knownLines))
+		writeEvidence(id, tier, seed, cfg, agg, len(distinct), nviol, wallS, buildS, workers, realC, stubC, unreached, len(knownLines), raceRuns, raceSteps, raceWorkers)
 	}
 	fmt.Printf("vcheck: %s %s: %d runs (%d non-trivial, %d distinct), %d steps, %.1fs simulated, %d truncated, violations=%d known=%d, %.1fs wall\n",
 		id, tier, agg.Runs, agg.Nontrivial, len(distinct), agg.Steps, float64(agg.SimTimeNs)/1e9, agg.Truncated, nviol, len(knownLines), wallS)
+	if raceWorkers > 0 {
+		fmt.Printf("vcheck: %s race mode (%s, -race build): %d runs, %d steps on %d workers\n", id, cfg.RaceWorld, raceRuns, raceSteps, raceWorkers)
+	}
 	if len(unreached) > 0 {
 		fmt.Printf("vcheck: probes not reached in this run: %v\n", unreached)
 	}
@@ -769,7 +903,7 @@ var wantProbes = map[string][]string{
 	"C06": {"hook_discards_event", "pool_reuse_other_task", "pool_miss", "pool_drop", "sink_overlap", "two_events_open", "sink_blocks_in_write", "sink_error", "global_level_flip", "mutex_contended"},
 }
 
-func writeEvidence(id, tier string, seed uint64, cfg propCfg, st Stats, distinct, nviol int, wallS, buildS float64, workers int, realC, stubC, unreached []string, nknown int) {
+func writeEvidence(id, tier string, seed uint64, cfg propCfg, st Stats, distinct, nviol int, wallS, buildS float64, workers int, realC, stubC, unreached []string, nknown int, raceRuns int, raceSteps int64, raceWorkers int) {
 	samples := []interface{}{}
 	for _, s := range st.Samples {
 		samples = append(samples, s)
@@ -807,6 +941,7 @@ func writeEvidence(id, tier string, seed uint64, cfg propCfg, st Stats, distinct
 			"sites_total":         st.SitesTotal,
 			"components":          map[string]interface{}{"real": realC, "stub": stubC},
 			"known_findings_seen": nknown,
+			"race_mode":           map[string]interface{}{"world": cfg.RaceWorld, "workers": raceWorkers, "runs": raceRuns, "steps": raceSteps, "note": "runs of the -race build (spin baton); oracle: Go race detector, halt on first report"},
 			"build_s":             buildS,
 			"repo_rev":            repoRev(),
 		},
@@ -837,7 +972,16 @@ func doReplay(file string) int {
 	abs, _ := filepath.Abs(file)
 	_, worker := prepare(rf.Property, cfg.Tags, false)
 	if rf.Rerun {
-		so, se, code, err := runWorker(worker, []string{"-world", rf.World, "-prop", rf.Property, "-seed", strconv.FormatUint(rf.Seed, 10), "-from", strconv.Itoa(rf.Run), "-to", strconv.Itoa(rf.Run + 1), "-wall", "600"}, 400*time.Second)
+		var xenv []string
+		if rf.Race {
+			rw, out, err := buildWorker(filepath.Dir(worker), cfg.Tags, true)
+			if err != nil {
+				fatal2("race build failed: %v\n%s", err, out)
+			}
+			worker, xenv = rw, raceEnv
+		}
+		so, se, code, err := runWorker(worker, []string{"-world", rf.World, "-prop", rf.Property, "-seed", strconv.FormatUint(rf.Seed, 10), "-from", strconv.Itoa(rf.Run), "-to", strconv.Itoa(rf.Run + 1), "-wall", "600"}, 400*time.Second, xenv...)
+		se = originalLines(filepath.Dir(worker), se)
 		if err == nil && code != 0 && code != 3 && !strings.Contains(se, "watchdog") {
 			fmt.Printf("replay: the process died again:\n%s\n", se)
 			fmt.Printf("VIOLATION property=%s replay=%s\n", rf.Property, abs)
